@@ -6,7 +6,7 @@
    failed when the flush fails, after dependents may already have looked. *)
 From Coq Require Import List.
 Import ListNotations.
-From BD.Sched Require Import Model Proofs Examples.
+From BD.Sched Require Import Model Proofs Replay ReplayProofs ProofsTrace Examples.
 
 (* For every configuration (any dependency lists, flags, retry limits, preconditions, maxActiveRuns), every
    execution ls1 ++ WExecStart i :: ls2 of the scheduler model (= every outcome assignment and interleaving) and
@@ -21,11 +21,31 @@ Theorem C01_start_after_deps : forall c : cfg, donech c = true -> norepeat c ->
 Proof. exact C01_execution. Qed.
 Print Assumptions C01_start_after_deps.
 
+(* The same on the VISIBLE trace of every execution (what the harness observes of the real scheduler): when step i's
+   Run is entered no dependency has an open Run (opn_after = the set of open Run calls), and no dependency's Run is
+   entered again later. *)
+Theorem C01_on_every_trace : forall c : cfg, donech c = true -> norepeat c ->
+  forall ls1 i ls2 s, run c (init c) (ls1 ++ WExecStart i :: ls2) = Some s ->
+  forall d, In d (deps (steps c i)) ->
+    ~ In d (opn_after [] (vis ls1)) /\ ~ In (VStart d) (vis ls2).
+Proof. exact C01_trace. Qed.
+Print Assumptions C01_on_every_trace.
+
 (* the statuses a dependent relies on never change again *)
 Theorem C01_permitting_status_is_stable : forall c : cfg, donech c = true -> norepeat c ->
   forall s l s', Inv c s -> step c s l = Some s' -> forall d, okterm c s d -> okterm c s' d.
 Proof. exact step_okterm_stable. Qed.
 Print Assumptions C01_permitting_status_is_stable.
+
+(* The tie to the implementation is sound in this direction: a trace of the real scheduler that the acceptor accepts IS
+   the visible projection (command starts and ends) of an execution of the model ending in Done with the observed final
+   node table, Schedule error and Status - so every theorem about all executions holds of every accepted run.  (That
+   real traces ARE accepted is what the correspondence measures on every run of the check.) *)
+Theorem C01_accept_sound : forall c ivl eps fin tr err status, accept c ivl eps fin tr err status = true ->
+  exists ls s, run c (init c) ls = Some s /\ vis ls = map untime tr /\ pc s = LDone /\
+               final_ok c fin s = true /\ lasterr s = err /\ ocode (overall c s) = status.
+Proof. exact accept_sound. Qed.
+Print Assumptions C01_accept_sound.
 
 (* Non-vacuity: a complete execution of the diamond a -> {b,c} -> d (b retried once) reaches every hypothesis with
    i = d and dependencies [b; c], and runs to completion. *)
